@@ -3,6 +3,9 @@ import XrlParser.Lemmas.Invariance
 import XrlParser.Lemmas.Rejects
 import XrlParser.Lemmas.Add
 import XrlParser.Lemmas.Witness
+import XrlParser.Lemmas.Sorted
+import XrlParser.Lemmas.Tables
+import XrlParser.Lemmas.Heap
 /-!
 # C07 — the formula parser computes the true composition of every well-formed formula
 
@@ -93,6 +96,22 @@ theorem parse_print (v : Variant) (T : Tables) (l : Locale) (f : Formula) (hf : 
     rw [parse, print_toList]
     exact compoundParser_result_ok v T l _ h1 (Or.inr (fun e he => ne_of_gt (hwpos e he)))
   exact ⟨mkCD T ca, hres, this.1, this.2⟩
+
+/-- for **every** string the parser accepts (formula-shaped or not), the elements are strictly ascending
+    without duplicates — the invariant that also justifies modelling `bsearch` on the atom array by its contract. -/
+theorem parse_elements_ascending (v : Variant) (T : Tables) (l : Locale) (s : List Char) (cd : CompoundData)
+    (h : (compoundParser v T l (some s)).result = .ok cd) : StrictAsc cd.elements := by
+  cases hp : parseSimple T (s.length + 1) s with
+  | error f => rw [compoundParser_result_err v T l s hp] at h; cases h
+  | ok r =>
+    obtain ⟨ca, k⟩ := r
+    have hs := parseSimple_sorted T _ _ _ hp
+    simp only [compoundParser, hp] at h
+    split at h
+    · cases h
+    · simp only [Except.ok.injEq] at h
+      subst h
+      exact pairwise_strictAsc hs
 
 /-- **parse_reorder**: reordering the terms of a formula (at any nesting level) does not change the result. -/
 theorem parse_reorder (v : Variant) (T : Tables) (l : Locale) {f g : Formula} (h : Reorder f g)
@@ -239,6 +258,22 @@ theorem heap_leak_leading_group :
     liveAfterFree (compoundParser asIs T0 ⟨['C']⟩ (some ['(', '(', 'H', ')', ')'])) = 2 := by
   constructor <;> decide
 
+/-- the exact count for the shipped code on every well-formed formula: one block per nesting level (the formula,
+    the inside of every group) that contains no element symbol directly. -/
+theorem heap_leak_count (v : Variant) (hv : v.leakFix = false) (T : Tables) (l : Locale) (f : Formula)
+    (hf : f.WF (elementsOf T)) : liveAfterFree (parse v T l f.print) = leakOf f := by
+  obtain ⟨ca, h1, _⟩ := parseSimple_leak T (f.printL.length + 1) f hf (by omega)
+  rw [parse, print_toList]
+  exact compoundParser_live_ok v hv T l _ h1
+
+/-- the heap is left as found by every well-formed formula each of whose levels contains an element symbol
+    directly (the hypothesis excludes exactly the accepted formulas that leak). -/
+theorem heap_balanced_partial (v : Variant) (T : Tables) (l : Locale) (f : Formula) (hf : f.WF (elementsOf T))
+    (h : leakOf f = 0) : liveAfterFree (parse v T l f.print) = 0 := by
+  by_cases hv : v.leakFix = true
+  · rw [parse]; exact compoundParser_live_fixed v hv T l _
+  · rw [heap_leak_count v (by simpa using hv) T l f hf, h]
+
 /-- with the repair C07-3 nothing is left behind (the repaired heap behaviour is modelled coarsely — all exits
     free everything — and is tied to the code by the correspondence run, live-block count on every input). -/
 theorem heap_balanced_fixed (v : Variant) (hv : v.leakFix = true) : heap_balanced_full v := by
@@ -255,6 +290,14 @@ theorem add_compound_spec (A B : CD) (wA wB : Rat) (hA : StrictAsc A.elements) (
     IsWeightedUnion wA wB (cdToComp A) (cdToComp B) (cdToComp (addCompoundData A wA B wB)) :=
   addCompoundData_spec A B wA wB hA hB
 
+/-! ## the element table -/
+
+/-- when `tablesOK` holds (executed by the driver on the tables of the library built from the working tree, on
+    every run) the parser's symbol lookup (`bsearch` in `MendelArraySorted`) is `SymbolToAtomicNumber`'s (linear
+    search in `MendelArray`): "known element symbols" means the same thing in both. -/
+theorem symbol_lookup_agrees (T : Tables) (h : tablesOK T = true) (s : List Char) :
+    lookupSym T s = symbolToAtomicNumber T s := lookups_agree T h s
+
 /-! ## non-vacuity: the hypotheses instantiated on concrete formulas (table `T0` and the formulas are in
     Lemmas/Witness.lean) -/
 
@@ -265,6 +308,10 @@ example : ∃ cd, (parse asIs T0 ⟨['C']⟩ fMgOH2.print).result = .ok cd ∧ (
 
 /-- `parse_print_counts` applies to the witness `Rf` (no weight) -/
 example : ∃ cd, (parse asIs T0 ⟨['C']⟩ fRf.print).result = .ok cd := parse_accepts_weightless asIs rfl T0 _ fRf fRf_wf
+
+/-- `parse_elements_ascending` applies to the result of `Mg(OH)2` -/
+example : ∀ cd, (compoundParser asIs T0 ⟨['C']⟩ (some fMgOH2.printL)).result = .ok cd → StrictAsc cd.elements :=
+  fun cd h => parse_elements_ascending asIs T0 _ _ cd h
 
 /-- `parse_reorder` applies: `Mg(OH)2` and `(OH)2Mg` -/
 example : (parse asIs T0 ⟨['C']⟩ fMgOH2.print).result = (parse asIs T0 ⟨['C']⟩ fOH2Mg.print).result :=
@@ -313,6 +360,15 @@ example : ∃ e, (parse ⟨true, true, true⟩ T0 ⟨['C']⟩ fRf.print).result 
   parse_rejects_full_fixed ⟨true, true, true⟩ rfl T0 _ fRf fRf_wf.2.1 (fun hh => fRf_not_weighted hh.2)
 example : (compoundParser ⟨true, true, true⟩ T0 ⟨['C', '.', 'u', 't', 'f', '8']⟩ (some ['H', '2', 'O'])).locale = ⟨['C', '.', 'u', 't', 'f', '8']⟩ :=
   locale_restored_fixed ⟨true, true, true⟩ rfl T0 _ _
+
+/-- `symbol_lookup_agrees` applies to `T0` -/
+example : lookupSym T0 ['M', 'g'] = symbolToAtomicNumber T0 ['M', 'g'] := symbol_lookup_agrees T0 (by decide) _
+
+/-- `heap_balanced_partial` applies to `Mg(OH)2`; `heap_leak_count` evaluates to 0 for `(OH)2Mg` (its top level has `Mg`) -/
+example : liveAfterFree (parse asIs T0 ⟨['C']⟩ fMgOH2.print) = 0 :=
+  heap_balanced_partial asIs T0 _ fMgOH2 fMgOH2_wf (by decide)
+example : liveAfterFree (parse asIs T0 ⟨['C']⟩ fOH2Mg.print) = 0 := by
+  rw [heap_leak_count asIs rfl T0 _ fOH2Mg fOH2Mg_wf]; decide
 
 /-- `locale_restored_partial` applies to the state `LC_NUMERIC = "C"` -/
 example : (compoundParser asIs T0 ⟨['C']⟩ (some ['H', '2', 'O'])).locale = ⟨['C']⟩ :=
